@@ -10,6 +10,12 @@ UNITS = {
     "b32": {"driver": "B32", "harness": "ops_b32", "gens": "b32", "props": {"C17": ["CxVerif.Props.C17.B32"]}},
     "simd": {"driver": "Simd", "harness": "ops_simd", "gens": "simd",
              "props": {"C16": ["CxVerif.Props.C16.Sha256", "CxVerif.Props.C16.Blake2"]}},
+    # translator tie of the hash compression cores (tools/ktx_words.py -> Extracted/Kernels*.lean, tie theorems by rfl / kernel_rfl)
+    "ktxhash": {"driver": None, "harness": None, "gens": None, "props": {
+        "C01": ["CxVerif.Props.C01.KernelTieSha256", "CxVerif.Props.C01.KernelTieSha512", "CxVerif.Props.C01.KernelTieSha1", "CxVerif.Props.C01.KernelTieRipemd160", "CxVerif.Props.C01.KernelTieKeccak", "CxVerif.Props.C01.KernelTieBlake2"],
+        "C02": ["CxVerif.Props.C01.KernelTieSha256", "CxVerif.Props.C01.KernelTieSha512", "CxVerif.Props.C01.KernelTieSha1", "CxVerif.Props.C01.KernelTieRipemd160", "CxVerif.Props.C01.KernelTieKeccak", "CxVerif.Props.C01.KernelTieBlake2"],
+        "C08": ["CxVerif.Props.C01.KernelTieSha256", "CxVerif.Props.C01.KernelTieSha512", "CxVerif.Props.C01.KernelTieSha1", "CxVerif.Props.C01.KernelTieRipemd160", "CxVerif.Props.C01.KernelTieKeccak", "CxVerif.Props.C01.KernelTieBlake2"],
+        "C16": ["CxVerif.Props.C01.KernelTieSha256", "CxVerif.Props.C01.KernelTieBlake2"]}},
     "hashlen": {"driver": "HashLen", "harness": "ops_hashlen", "gens": "hashlen",
                 "props": {"C01": ["CxVerif.Props.C20.HashLen"], "C20": ["CxVerif.Props.C20.HashLen"]}},
     "long": {"driver": "Long", "harness": "ops_long", "gens": "long", "props": {}},
